@@ -190,6 +190,19 @@ func c07Scan(data []byte, mode string, cut int) c07Out {
 			if err := sc.Err(); err != nil {
 				out.errText = err.Error()
 			}
+			// a scanner that has stopped stays stopped: further Scan calls return false and the error does not change
+			for k := 0; k < 2; k++ {
+				if sc.Scan() {
+					panic("Scan returned true again after it had returned false")
+				}
+				after := ""
+				if err := sc.Err(); err != nil {
+					after = err.Error()
+				}
+				if after != out.errText {
+					panic(fmt.Sprintf("Err changed from %q to %q by calling Scan after the end", out.errText, after))
+				}
+			}
 		}); p {
 			out.panicked = msg + " @ " + firstRepoFrame(stack)
 		}
